@@ -58,6 +58,8 @@ _built = {}
 def build_harness(release=False):
     """(re)build the harness against /repo's working tree; returns binary path or raises"""
     key = "release" if release else "dev"
+    if os.environ.get("LZV_HARNESS_BIN") and not release:
+        return os.environ["LZV_HARNESS_BIN"]        # bin/coverage: an instrumented build of the same harness
     if key in _built:
         return _built[key]
     lock_src = os.path.join(REPO, "Cargo.lock")
